@@ -15,6 +15,7 @@ func init() {
 		Clauses: []string{
 			"R1 in the generation-reachable functions of the EDS, route and xDS-generator packages, no iteration over a map / set decides the order of an output slice: every map-range whose body appends to a slice is followed by a sort of that slice in the same function, or is listed with a reason",
 			"R2 the anchored sort comparators break ties on identity: each reads name AND namespace (resp. provider and cluster) of both operands besides the primary key",
+			"R4 in the snapshot-building and generation code no loop that receives from a channel (results of worker goroutines) appends what it receives to a list that outlives the loop unless the list is sorted afterwards: arrival order is goroutine completion order",
 			"R3 deterministic marshalling: protoconv marshals with Deterministic=true, and generation packages marshal protobuf messages only through protoconv (frozen exceptions)",
 		},
 		NotDecided: "byte equality across runs; order stability of inputs delivered by informers; map-range order sensitivity outside the three packages of R1 (the census of the whole generation graph is listed in evidence info, not armed)",
@@ -22,6 +23,7 @@ func init() {
 			{"C17-R1", "unordered iteration does not decide output order", c17r1},
 			{"C17-R2", "comparators are total on identity", c17r2},
 			{"C17-R3", "deterministic marshalling", c17r3},
+			{"C17-R4", "results collected from worker goroutines are not ordered by arrival", c17r4},
 		},
 	})
 }
@@ -668,7 +670,7 @@ func c17r3(c *Ctx) {
 	}
 	c.Check("protoconv sets Deterministic", token.NoPos, det && n >= 1, "no MarshalOptions{Deterministic: true} found in protoconv")
 	// who may marshal in generation packages
-	genPkgs := []string{pkgCore, pkgRoute, pkgXds, pkgEndpoints, "pilot/pkg/networking/core/envoyfilter", "pilot/pkg/networking/core/extension", "pilot/pkg/networking/plugin/authn", "pilot/pkg/networking/plugin/authz", "pilot/pkg/security/authz/builder"}
+	genPkgs := []string{pkgCore, pkgRoute, pkgXds, pkgEndpoints, "pilot/pkg/networking/util", "pilot/pkg/networking/core/envoyfilter", "pilot/pkg/networking/core/extension", "pilot/pkg/networking/plugin/authn", "pilot/pkg/networking/plugin/authz", "pilot/pkg/security/authz/builder"}
 	inGen := map[string]bool{}
 	for _, g := range genPkgs {
 		inGen[istioMod+"/"+g] = true
@@ -757,4 +759,163 @@ func typeHasMapField(t types.Type, depth int, seen map[types.Type]bool) bool {
 		}
 	}
 	return false
+}
+
+
+// C17-R4: a loop that receives from a channel sees values in the order the sending goroutines finished. Appending them
+// to a slice (or to a per-key slice in a map) makes that order part of the state; unless the slice is sorted afterwards
+// (or the workers write into pre-assigned slots instead), precedence rules that rely on list order - e.g. "first matching
+// Sidecar wins" - depend on scheduling.
+func c17r4(c *Ctx) {
+	p := c.P
+	pkgs := map[string]bool{istioMod + "/" + pkgModel: true, istioMod + "/" + pkgCore: true, istioMod + "/" + pkgRoute: true, istioMod + "/" + pkgXds: true, istioMod + "/" + pkgEndpoints: true}
+	nLoops, nFns := 0, 0
+	for _, fn := range p.AllFuncs {
+		if !pkgs[funcPkgPath(fn)] || strings.HasSuffix(p.Fset.Position(fn.Pos()).Filename, "_test.go") {
+			continue
+		}
+		hasRecv := false
+		eachInstr(fn, func(ins ssa.Instruction) {
+			if u, ok := ins.(*ssa.UnOp); ok && u.Op == token.ARROW {
+				hasRecv = true
+			}
+		})
+		if !hasRecv {
+			continue
+		}
+		nFns++
+		for _, h := range fn.Blocks {
+			// natural loop headers: a predecessor is dominated by the block
+			isHeader := false
+			for _, pr := range h.Preds {
+				if h.Dominates(pr) {
+					isHeader = true
+				}
+			}
+			if !isHeader {
+				continue
+			}
+			member := loopMembers(fn, h)
+			var recv *ssa.UnOp
+			for b := range member {
+				for _, ins := range b.Instrs {
+					if u, ok := ins.(*ssa.UnOp); ok && u.Op == token.ARROW {
+						recv = u
+					}
+				}
+			}
+			if recv == nil {
+				continue
+			}
+			nLoops++
+			// appends in the loop that keep a received value
+			bad := ""
+			var pos token.Pos = recv.Pos()
+			var exits []*ssa.BasicBlock
+			for b := range member {
+				for _, sx := range b.Succs {
+					if !member[sx] {
+						exits = append(exits, sx)
+					}
+				}
+			}
+			for b := range member {
+				for _, ins := range b.Instrs {
+					if !isAppendCall(ins) {
+						continue
+					}
+					call := ins.(*ssa.Call)
+					// does the appended element derive from the received value?
+					fromRecv := false
+					budget := 400
+					var walk func(v ssa.Value)
+					seen := map[ssa.Value]bool{}
+					walk = func(v ssa.Value) {
+						if v == nil || seen[v] || budget <= 0 {
+							return
+						}
+						seen[v] = true
+						budget--
+						if v == ssa.Value(recv) {
+							fromRecv = true
+							return
+						}
+						if a, ok := v.(*ssa.Alloc); ok {
+							for _, ref := range *a.Referrers() {
+								switch y := ref.(type) {
+								case *ssa.Store:
+									walk(y.Val)
+								case *ssa.IndexAddr:
+									for _, r2 := range *y.Referrers() {
+										if st, ok := r2.(*ssa.Store); ok {
+											walk(st.Val)
+										}
+									}
+								}
+							}
+							return
+						}
+						if i2, ok := v.(ssa.Instruction); ok {
+							var ops []*ssa.Value
+							for _, op := range i2.Operands(ops) {
+								if op != nil && *op != nil {
+									walk(*op)
+								}
+							}
+						}
+					}
+					if len(call.Call.Args) > 1 {
+						walk(call.Call.Args[1])
+					}
+					if !fromRecv {
+						continue
+					}
+					ts := appendTargets(call, h)
+					kept := len(ts) > 0
+					sorted := kept
+					for _, t := range ts {
+						if !sortedFrom(exits, t) {
+							sorted = false
+						}
+					}
+					// m[k] = append(m[k], v)
+					for _, ref := range *call.Referrers() {
+						if mu, ok := ref.(*ssa.MapUpdate); ok && mu.Value == ssa.Value(call) {
+							kept = true
+							sorted = false
+							for len(exits) > 0 {
+								break
+							}
+							// any sort call after the loop counts (per-key lists are sorted in a later pass)
+							seenB := map[*ssa.BasicBlock]bool{}
+							st := append([]*ssa.BasicBlock{}, exits...)
+							for len(st) > 0 {
+								bb := st[len(st)-1]
+								st = st[:len(st)-1]
+								if seenB[bb] {
+									continue
+								}
+								seenB[bb] = true
+								for _, i3 := range bb.Instrs {
+									if isSortCall(i3) {
+										sorted = true
+									}
+								}
+								st = append(st, bb.Succs...)
+							}
+						}
+					}
+					if kept && !sorted {
+						bad = "values received from a channel are appended to a list that outlives the loop (" + p.pos(call.Pos()) + ") and the list is not sorted afterwards"
+						pos = call.Pos()
+					}
+				}
+			}
+			c.Check("channel-receive loop does not fix an order by arrival: "+stableFnName(fn), pos, bad == "",
+				bad+": the order of the list is the order in which the sending goroutines finished. Where list order is a precedence rule (e.g. the first matching Sidecar of a namespace wins) the configuration a proxy gets depends on scheduling and differs between instances")
+		}
+	}
+	c.Stat("functions_receiving_from_channels", nFns)
+	c.Check("channel-receive loops examined", token.NoPos, nLoops >= 1, "no loop receiving from a channel found in the snapshot/generation packages (concurrentConvertToSidecarScope's workers)")
+	c.Floor(2)
 }
